@@ -311,17 +311,17 @@ theorem index_maps_in_range :
   decide
 
 /-- the index map of a configured aligner is one of the two built-in maps or absent -/
-private theorem configure_chartopos (den : Int) (s1 s2 : Seq) (go ge : Option Int) (mm : Option (Int × Int)) :
-    (configure den s1 s2 go ge mm).chartopos = some Gen.dna_to_matrix_pos ∨
-    (configure den s1 s2 go ge mm).chartopos = some Gen.prot_to_matrix_pos ∨
-    (configure den s1 s2 go ge mm).chartopos = none := by
-  have hn : (newPwAligner den s1 s2).chartopos = some Gen.dna_to_matrix_pos ∨
-      (newPwAligner den s1 s2).chartopos = some Gen.prot_to_matrix_pos ∨
-      (newPwAligner den s1 s2).chartopos = none := by
+private theorem configure_chartopos (den : Int) (s1 s2 : Seq) (go ge : Option Int) (mm : Option (Int × Int)) (fa : Bool) :
+    (configure den s1 s2 go ge mm fa).chartopos = some Gen.dna_to_matrix_pos ∨
+    (configure den s1 s2 go ge mm fa).chartopos = some Gen.prot_to_matrix_pos ∨
+    (configure den s1 s2 go ge mm fa).chartopos = none := by
+  have hn : (newPwAligner den s1 s2 fa).chartopos = some Gen.dna_to_matrix_pos ∨
+      (newPwAligner den s1 s2 fa).chartopos = some Gen.prot_to_matrix_pos ∨
+      (newPwAligner den s1 s2 fa).chartopos = none := by
     simp only [newPwAligner]
-    split
-    · simp
-    · split <;> simp
+    generalize (if fa = true then _ else _ : Bool) = d
+    generalize (if fa = true then _ else _ : Bool) = q
+    cases d <;> cases q <;> simp
   unfold configure
   cases go <;> cases ge <;> cases mm <;>
     simpa only [Aligner.setGapOpenScore, Aligner.setGapExtendScore, Aligner.setScore] using hn
@@ -488,10 +488,10 @@ theorem fill_best_in_range (a : Aligner) (fixed : Bool) (x1 x2 : List CI) (h1 : 
 /-- **sw_align_valid** — whatever `NewPwAligner` + setters + `Alignment()` return without error for
 *any* two sequences and *any* scores (shipped or repaired code) is valid in the sense of C09. -/
 theorem sw_align_valid (fixed : Bool) (den : Int) (s1 s2 : Seq) (go ge : Option Int)
-    (mm : Option (Int × Int)) (r : Result)
-    (h : align (configure den s1 s2 go ge mm) fixed s1 s2 = Outcome.ok r) : Valid s1 s2 r := by
-  have ha := configure_chartopos den s1 s2 go ge mm
-  generalize configure den s1 s2 go ge mm = a at h ha
+    (mm : Option (Int × Int)) (fa : Bool) (r : Result)
+    (h : align (configure den s1 s2 go ge mm fa) fixed s1 s2 = Outcome.ok r) : Valid s1 s2 r := by
+  have ha := configure_chartopos den s1 s2 go ge mm fa
+  generalize configure den s1 s2 go ge mm fa = a at h ha
   simp only [align] at h
   split at h
   · simp at h
@@ -653,12 +653,12 @@ private theorem backTrack_score {fixed : Bool} {gopen gext : Int} {m : Nat → N
 match/mismatch scores, and any gap penalties with `gapopen ≤ gapextend < 0`: the reported score
 (`MaxScore()`) **equals** the optimum over all local alignments as defined by the specification
 (Gotoh program, itself proved to bound every local alignment and to be attained). -/
-theorem sw_score_is_optimum (den : Int) (s1 s2 : Seq) (go ge : Option Int) (mm : Option (Int × Int)) (r : Result)
-    (hgap : (configure den s1 s2 go ge mm).gapopen ≤ (configure den s1 s2 go ge mm).gapextend ∧
-            (configure den s1 s2 go ge mm).gapextend < 0)
-    (h : align (configure den s1 s2 go ge mm) true s1 s2 = Outcome.ok r) :
-    r.score = Spec.SW.gotohBest (schemeOf (configure den s1 s2 go ge mm)) s1 s2 := by
-  generalize configure den s1 s2 go ge mm = a at h hgap
+theorem sw_score_is_optimum (den : Int) (s1 s2 : Seq) (go ge : Option Int) (mm : Option (Int × Int)) (fa : Bool) (r : Result)
+    (hgap : (configure den s1 s2 go ge mm fa).gapopen ≤ (configure den s1 s2 go ge mm fa).gapextend ∧
+            (configure den s1 s2 go ge mm fa).gapextend < 0)
+    (h : align (configure den s1 s2 go ge mm fa) true s1 s2 = Outcome.ok r) :
+    r.score = Spec.SW.gotohBest (schemeOf (configure den s1 s2 go ge mm fa)) s1 s2 := by
+  generalize configure den s1 s2 go ge mm fa = a at h hgap
   simp only [align] at h
   split at h
   · simp at h
@@ -715,16 +715,16 @@ private theorem align_ok_inv {a : Aligner} {fixed : Bool} {s1 s2 : Seq} {r : Res
 the two returned rows, read column by column, are an alignment whose affine-gap score under the
 configured scheme is exactly the reported score. -/
 theorem sw_score_of_returned_rows (den : Int) (s1 s2 : Seq) (go ge : Option Int) (mm : Option (Int × Int))
-    (r : Result)
-    (hgap : (configure den s1 s2 go ge mm).gapopen ≤ (configure den s1 s2 go ge mm).gapextend ∧
-            (configure den s1 s2 go ge mm).gapextend < 0)
-    (h : align (configure den s1 s2 go ge mm) true s1 s2 = Outcome.ok r) (hpos : 0 < r.score) :
+    (fa : Bool) (r : Result)
+    (hgap : (configure den s1 s2 go ge mm fa).gapopen ≤ (configure den s1 s2 go ge mm fa).gapextend ∧
+            (configure den s1 s2 go ge mm fa).gapextend < 0)
+    (h : align (configure den s1 s2 go ge mm fa) true s1 s2 = Outcome.ok r) (hpos : 0 < r.score) :
     ∃ cols, Spec.SW.colsOfRows r.row1 r.row2 = some cols ∧
-      Spec.SW.score (schemeOf (configure den s1 s2 go ge mm)) cols = r.score := by
-  have hvalid := sw_align_valid true den s1 s2 go ge mm r h
-  have hopt := sw_score_is_optimum den s1 s2 go ge mm r hgap h
-  have ha := configure_chartopos den s1 s2 go ge mm
-  generalize configure den s1 s2 go ge mm = a at h hgap hopt ha
+      Spec.SW.score (schemeOf (configure den s1 s2 go ge mm fa)) cols = r.score := by
+  have hvalid := sw_align_valid true den s1 s2 go ge mm fa r h
+  have hopt := sw_score_is_optimum den s1 s2 go ge mm fa r hgap h
+  have ha := configure_chartopos den s1 s2 go ge mm fa
+  generalize configure den s1 s2 go ge mm fa = a at h hgap hopt ha
   obtain ⟨i1, i2, hi1, hi2, hne1, hne2, hbt⟩ := align_ok_inv h
   have hl1 := mapM_length _ _ _ (seqToIndices_eq a s1 ▸ hi1)
   have hl2 := mapM_length _ _ _ (seqToIndices_eq a s2 ▸ hi2)
@@ -777,33 +777,33 @@ sequences, the built-in matrices or any match/mismatch scores, and any gap penal
 * (B) no local alignment of the two sequences scores higher.
 
 It is FALSE for the shipped code (`fixed = false`): see the `example`s below. -/
-theorem sw_optimal (den : Int) (s1 s2 : Seq) (go ge : Option Int) (mm : Option (Int × Int)) (r : Result)
-    (hgap : (configure den s1 s2 go ge mm).gapopen ≤ (configure den s1 s2 go ge mm).gapextend ∧
-            (configure den s1 s2 go ge mm).gapextend < 0)
-    (h : align (configure den s1 s2 go ge mm) true s1 s2 = Outcome.ok r)
+theorem sw_optimal (den : Int) (s1 s2 : Seq) (go ge : Option Int) (mm : Option (Int × Int)) (fa : Bool) (r : Result)
+    (hgap : (configure den s1 s2 go ge mm fa).gapopen ≤ (configure den s1 s2 go ge mm fa).gapextend ∧
+            (configure den s1 s2 go ge mm fa).gapextend < 0)
+    (h : align (configure den s1 s2 go ge mm fa) true s1 s2 = Outcome.ok r)
     (hpos : ∃ p1 p2 cols, Spec.SW.IsLocal s1 s2 p1 p2 cols ∧
-              0 < Spec.SW.score (schemeOf (configure den s1 s2 go ge mm)) cols) :
+              0 < Spec.SW.score (schemeOf (configure den s1 s2 go ge mm fa)) cols) :
     (∃ cols, Spec.SW.colsOfRows r.row1 r.row2 = some cols ∧
-        r.score = Spec.SW.score (schemeOf (configure den s1 s2 go ge mm)) cols) ∧
+        r.score = Spec.SW.score (schemeOf (configure den s1 s2 go ge mm fa)) cols) ∧
     (∀ p1 p2 cols, Spec.SW.IsLocal s1 s2 p1 p2 cols →
-        Spec.SW.score (schemeOf (configure den s1 s2 go ge mm)) cols ≤ r.score) := by
-  have hopt := sw_score_is_optimum den s1 s2 go ge mm r hgap h
+        Spec.SW.score (schemeOf (configure den s1 s2 go ge mm fa)) cols ≤ r.score) := by
+  have hopt := sw_score_is_optimum den s1 s2 go ge mm fa r hgap h
   have hB : ∀ p1 p2 cols, Spec.SW.IsLocal s1 s2 p1 p2 cols →
-      Spec.SW.score (schemeOf (configure den s1 s2 go ge mm)) cols ≤ r.score := by
+      Spec.SW.score (schemeOf (configure den s1 s2 go ge mm fa)) cols ≤ r.score := by
     intro p1 p2 cols hl; rw [hopt]; exact Spec.SW.gotoh_upper _ hl
   obtain ⟨p1, p2, cols, hl, hp⟩ := hpos
   have hrpos : 0 < r.score := Int.lt_of_lt_of_le hp (hB p1 p2 cols hl)
-  obtain ⟨c, hc, hs⟩ := sw_score_of_returned_rows den s1 s2 go ge mm r hgap h hrpos
+  obtain ⟨c, hc, hs⟩ := sw_score_of_returned_rows den s1 s2 go ge mm fa r hgap h hrpos
   exact ⟨⟨c, hc, hs.symm⟩, hB⟩
 
 /-- corollary: some local alignment attains the reported score even when it is 0 -/
-theorem sw_score_attained (den : Int) (s1 s2 : Seq) (go ge : Option Int) (mm : Option (Int × Int)) (r : Result)
-    (hgap : (configure den s1 s2 go ge mm).gapopen ≤ (configure den s1 s2 go ge mm).gapextend ∧
-            (configure den s1 s2 go ge mm).gapextend < 0)
-    (h : align (configure den s1 s2 go ge mm) true s1 s2 = Outcome.ok r) :
+theorem sw_score_attained (den : Int) (s1 s2 : Seq) (go ge : Option Int) (mm : Option (Int × Int)) (fa : Bool) (r : Result)
+    (hgap : (configure den s1 s2 go ge mm fa).gapopen ≤ (configure den s1 s2 go ge mm fa).gapextend ∧
+            (configure den s1 s2 go ge mm fa).gapextend < 0)
+    (h : align (configure den s1 s2 go ge mm fa) true s1 s2 = Outcome.ok r) :
     ∃ p1 p2 cols, Spec.SW.IsLocal s1 s2 p1 p2 cols ∧
-      Spec.SW.score (schemeOf (configure den s1 s2 go ge mm)) cols = r.score := by
-  rw [sw_score_is_optimum den s1 s2 go ge mm r hgap h]
+      Spec.SW.score (schemeOf (configure den s1 s2 go ge mm fa)) cols = r.score := by
+  rw [sw_score_is_optimum den s1 s2 go ge mm fa r hgap h]
   exact Spec.SW.gotoh_attained _ s1 s2
 
 /-- score, rows of an outcome (for stating concrete instances) -/
